@@ -903,5 +903,24 @@ V('C20', 'set-poi-accepts-two-components', 'fire', 'C20.R6', 'a two-component pa
   ('src/pyhf/pdf.py', '        if self.param_set(name).n_parameters > 1:', '        if self.param_set(name).n_parameters > 2:'))
 V('C20', 'set-poi-index-from-stop', 'silent', '', "POI index computed from the slice's end (one component)",
   ('src/pyhf/pdf.py', '        self._poi_index = self.par_slice(name).start', '        self._poi_index = self.par_slice(name).stop - 1'))
+V('C01', 'settings-interpcode-popped-from-callers-dict', 'fire', 'C01.R11', "the interpolation code is POPPED out of the caller's settings object when the appliers are built",
+  ('src/pyhf/pdf.py', '            **config.modifier_settings.get(k, {}),\n', "            **({'interpcode': config.modifier_settings[k].pop('interpcode')} if 'interpcode' in config.modifier_settings.get(k, {}) else {}),\n"))
+V('C10', 'batch-size-stored-in-callers-settings', 'fire', 'C10.R6', "the batch size is written into the caller's settings object with setdefault",
+  ('src/pyhf/pdf.py', '            batch_size=batch_size,\n            **config.modifier_settings.get(k, {}),\n', "            **{**config.modifier_settings.setdefault(k, {}), 'batch_size': config.modifier_settings.setdefault(k, {}).setdefault('batch_size', batch_size)},\n"))
+V('C01', 'settings-copied-per-applier', 'silent', '', 'each applier gets a copy of its settings',
+  ('src/pyhf/pdf.py', '            **config.modifier_settings.get(k, {}),\n', '            **dict(config.modifier_settings.get(k, {})),\n'))
+V('C10', 'viewer-stitch-shortcut-for-ascending-first-indices', 'fire', 'C10.R6', "sized viewers skip the re-ordering when the partitions' first indices ascend",
+  ('src/pyhf/tensor/common.py', "        self._precompute()\n        events.subscribe('tensorlib_changed')(self._precompute)\n", "        _offsets = [int(default_backend.astensor(idx, dtype='int')[0]) for idx in self._partition_indices if len(idx)]\n        self._ascending = _offsets == sorted(_offsets)\n        self._precompute()\n        events.subscribe('tensorlib_changed')(self._precompute)\n"),
+  ('src/pyhf/tensor/common.py', '        if len(tensorlib.shape(data)) == 1:\n            stitched = tensorlib.gather(data, self.sorted_indices)\n        else:', '        if len(tensorlib.shape(data)) == 1:\n            stitched = tensorlib.gather(data, self.sorted_indices)\n        elif self.batch_size and self._ascending:\n            stitched = data\n        else:'))
+V('C04', 'precision-validated-but-not-normalised', 'fire', 'C04.R10', 'the precision string is validated case-insensitively but handed on as typed',
+  ('src/pyhf/tensor/manager.py', '        precision = precision.lower()\n        if precision not in _supported_precisions:', '        if precision.lower() not in _supported_precisions:'))
+V('C04', 'jax-poisson-value-cast-to-rate-dtype', 'fire', 'C04.R1', "the jax Poisson object casts the observed value to the rates' dtype",
+  ('src/pyhf/tensor/jax_backend.py', '        tensorlib = jax_backend()\n        return tensorlib.poisson_logpdf(value, self.rate)', '        tensorlib = jax_backend()\n        value = jnp.asarray(value, dtype=self.rate.dtype)\n        return tensorlib.poisson_logpdf(value, self.rate)'))
+V('C04', 'jax-poisson-value-as-array', 'silent', '', 'the jax Poisson object turns the observed value into an array without a dtype',
+  ('src/pyhf/tensor/jax_backend.py', '        tensorlib = jax_backend()\n        return tensorlib.poisson_logpdf(value, self.rate)', '        tensorlib = jax_backend()\n        value = jnp.asarray(value)\n        return tensorlib.poisson_logpdf(value, self.rate)'))
+V('C17', 'mixin-sorts-the-channel-list-in-place', 'fire', 'C17.R9', 'the channel summary sorts the channel list it is given in place (a Workspace hands it its own list)',
+  ('src/pyhf/mixins.py', "        for channel in channels:\n            self._channels.append(channel['name'])", "        channels.sort(key=lambda channel: channel['name'])\n        for channel in channels:\n            self._channels.append(channel['name'])"))
+V('C17', 'mixin-iterates-a-sorted-copy', 'silent', '', 'the channel summary iterates a sorted COPY of the channel list',
+  ('src/pyhf/mixins.py', "        for channel in channels:\n            self._channels.append(channel['name'])", "        for channel in sorted(channels, key=lambda channel: channel['name']):\n            self._channels.append(channel['name'])"))
 V("C13", "code4-exponent-mask-strict", "fire", "C13.R3", "code 4 takes exponent 1 (a constant) exactly at |alpha| = alpha0",
   ("src/pyhf/interpolators/code4.py", "            exponents >= self.__alpha0, exponents, self.ones", "            exponents > self.__alpha0, exponents, self.ones"))
